@@ -56,6 +56,19 @@ CHECKS = {
    technique='Coq proof (cache invariant by induction over operation histories, refinement to cache-less evaluation) + history correspondence with fresh-engine oracle',
    note=TB + " Hypotheses of the theorem: pods sharing namespace/owner/labels share container ports where the cache is consulted (the engine's own assumption; a _needed example shows it is necessary); histories contain pods, not workload objects. "
         "The LRU is modelled as a map without eviction (a superset). Ten defects found by this check were repaired by fix: commits (known_findings.json)."),
+ 'C16': dict(
+   text="Machine-checked proof (Coq) on the model of connlist.go that the focused report is exactly the unfocused report restricted to entries whose source or destination matches the focus (same connections, both inclusions), "
+        "and that a focus matching nothing yields an empty result with a warning, not an error; on the implementation, the real `list --focusworkload W` is related to the real unfocused `list` by a Coq-evaluated filter checker for every workload name (both spellings), shared names, absent names and ingress-controller.",
+   design_ref='DESIGN.md section 6 / C16',
+   technique='Coq proof (filter characterisation from soundness/completeness of the report) + metamorphic relation between two implementation runs',
+   note=TB + " One defect (focus on a real workload named ingress-controller) was repaired by a fix: commit."),
+ 'C17': dict(
+   text="Machine-checked proof (Coq) that the semantics and the computed canonical connection sets depend on a pod only through namespace, labels and container ports (so controller kind, replica count and pod names cannot change a reported connection), "
+        "that all controller kinds/replica counts expand one template to pods with one view and owner, that every workload string is exactly one peer and no entry pairs a workload with itself; on the implementation, worlds and their re-expressions "
+        "(kind, replicas, bare pods with a shared controller owner) are analysed by the real `list` and compared modulo the [Kind] suffix.",
+   design_ref='DESIGN.md section 6 / C17',
+   technique='Coq proof (view congruence + canonical-form uniqueness) + metamorphic relation between two implementation runs',
+   note=TB + " Known finding (not repaired): generated pod names collide for two workloads with one namespace/name (C17_distinct_workloads_shadow_refuted); the check prints KNOWN-FINDING for collision worlds only."),
  'C19': dict(
    text="Machine-checked proof (Coq): (1) for ANY correct comparison sort modelled as a decision tree, running it with the Go callback records an error whenever two priorities are equal and (n>=2) whenever one is "
         "out of range — so detection cannot depend on sort.Slice internals; (2) in the model of addObjectsByKind every listed conflict (same priority, out-of-range priority, same ANP name, same NetworkPolicy name, "
